@@ -274,11 +274,12 @@ impl ShardFileManager {
             #[cfg(xet_verif)]
             utils::verif::emit("SmRegister", || {
                 format!(
-                    "\"shard\":\"{}\",\"key\":\"{}\",\"col\":{},\"ncols\":{}",
+                    "\"shard\":\"{}\",\"key\":\"{}\",\"col\":{},\"ncols\":{},\"indexed\":{}",
                     s.shard_hash.hex(),
                     shard_hmac_key.hex(),
                     shard_col_index,
-                    sbkp_lg.shard_collections.len()
+                    sbkp_lg.shard_collections.len(),
+                    sbkp_lg.total_indexed_chunks
                 )
             });
         }
